@@ -144,6 +144,13 @@ def check(ctx: Ctx) -> None:  # noqa: C901, PLR0912, PLR0915
     for a, b, why in REACH:
         ok = b in cg.reachable(a)
         ctx.add("1-wired", a, P.func(a).loc, ok, f"{why}: {a.rsplit('.', 1)[-1]} reaches {b.rsplit('.', 1)[-1]}" if ok else f"{why}: {a.rsplit('.', 1)[-1]} no longer reaches {b.rsplit('.', 1)[-1]}", key=f"reach {a.rsplit('.', 1)[-1]}->{b.rsplit('.', 1)[-1]}")
+    rs = P.func(f"{RI}._requires_serialization")
+    lazy_any = [c for c in ast.walk(rs.node) if isinstance(c, ast.Call) and dotted(c.func) in ("any", "all", "next") and c.args and isinstance(c.args[0], ast.GeneratorExp)
+                and any(isinstance(x, ast.Call) and dotted(x.func) == "get_storage_class" for x in ast.walk(c.args[0]))]
+    lookups = [c for c in ast.walk(rs.node) if isinstance(c, ast.Call) and dotted(c.func) == "get_storage_class"]
+    ok = len(lookups) >= 2 and not lazy_any
+    ctx.add("1-wired", rs, lazy_any[0] if lazy_any else rs.node, ok, "every storage name of a per-output dict is looked up (no short-circuit)" if ok else
+            "storage names are looked up inside a short-circuiting any()/all(): names after the first hit are not validated before the folder is written", key="all-storage-names")
     prep = P.func(f"{PREP}.prepare_run")
     first = [s for s in prep.node.body if not (isinstance(s, ast.Expr) and isinstance(s.value, ast.Constant))][0]
     ok = isinstance(first, ast.If) and norm(first.test) == "not parallel and executor" and any(isinstance(x, ast.Raise) for x in first.body)
@@ -275,6 +282,7 @@ MUTANTS = [
     Mutant("prepare-complete-inputs-only-when-no-subpipeline", PR, "    _validate_complete_inputs(pipeline, inputs)\n", "    if not auto_subpipeline:\n        _validate_complete_inputs(pipeline, inputs)\n", ("C12.1-wired",)),
     Mutant("executor-check-late", PR, "    if not parallel and executor:\n        msg = \"Cannot use an executor without `parallel=True`.\"\n        raise ValueError(msg)\n    inputs = pipeline._flatten_scopes(inputs)\n", "    inputs = pipeline._flatten_scopes(inputs)\n", ("C12.1-wired",)),
     Mutant("storage-validated-late-F33", RIF, "    requires_serialization = _requires_serialization(storage)  # also validates the storage names\n    if run_folder is None and requires_serialization:\n", "    if run_folder is None and _requires_serialization(storage):\n", ("C12.1-wired", "C12.3-no-write"), why="original F33"),
+    Mutant("storage-any-short-circuit-F33b", RIF, "    return any([get_storage_class(s).requires_serialization for s in storage.values()])  # noqa: C419\n", "    return any(get_storage_class(s).requires_serialization for s in storage.values())\n", ("C12.1-wired",), why="original F33b"),
     Mutant("load-writes-F03", RIF, "        data[\"defaults\"] = load(Path(data.pop(\"defaults_path\")))\n        return cls(**data)\n", "        data[\"defaults\"] = load(Path(data.pop(\"defaults_path\")))\n        run_info = cls(**data)\n        run_info._write()\n        return run_info\n", ("C12.3-no-write",), why="original F03"),
     Mutant("write-before-shapes", RIF, "        _check_inputs(pipeline, inputs)\n        internal_shapes = _construct_internal_shapes(internal_shapes, pipeline)\n        shapes, masks = map_shapes(pipeline, inputs, internal_shapes)\n",
            "        internal_shapes = _construct_internal_shapes(internal_shapes, pipeline)\n        if run_folder is not None:\n            dump(inputs, run_folder / \"inputs.cloudpickle\")\n        _check_inputs(pipeline, inputs)\n        shapes, masks = map_shapes(pipeline, inputs, internal_shapes)\n", ("C12.3-no-write",)),
